@@ -35,6 +35,12 @@ def jobs(tier):
                     js.append(dict(base, name="%s/%s/wire-guard" % (e.name, tagc), analysis="wire", cfg=dict(cfg, guard="sym", track_all=True)))
                     if "truediv" not in e.tags:
                         js.append(dict(base, name="%s/%s/wire-ignore" % (e.name, tagc), analysis="wire", cfg=dict(cfg, ignore=True, track_all=True)))
+                if "mul" in e.tags and e.tags & {"R=f1", "L=f1"}:
+                    # product with a float constant: goes through the division gadget whose quotient is not range-checked
+                    # (recorded finding) -- but the remainder must stay below 2^resolution: the finding's region says so,
+                    # and a second result outside it is a new violation
+                    js.append(dict(base, name="%s/%s/unique" % (e.name, tagc), analysis="unique",
+                                   cfg=dict(cfg, bound=1 << 20, n=(4 if tier == "quick" else cfg["n"]))))
                 if e.tags & SOUND:
                     # results that do not go through the (unchecked-quotient) division gadget must be uniquely determined
                     js.append(dict(base, name="%s/%s/unique" % (e.name, tagc), analysis="unique",
